@@ -6,7 +6,7 @@ from typing import List, Optional, Tuple
 
 from ..model import AnalysisError
 from ..rules.gvn import GVN, f_key
-from ..rules.match import const_num, m_arrcall, m_binop, m_cmp, m_where
+from ..rules.match import const_num, m_arrcall, m_binop, m_cmp, m_method, m_where
 from ..rules.siblings import evaluate, swap_map, trial_evaluator
 from ..rules.trialsib import HD, WD, Sib, key, nelec
 from ..symex import (Evaluator, array_fn, call_parts, const, func_name, getitem, is_const, match_scan, mk,
@@ -119,32 +119,48 @@ def eigh_jvp(ctx):
                                     for x in d)
     ctx.ob("GUARD-1", "linalg_utils._eigh_jvp: the guarded quantity is the matrix of eigenvalue differences",
            d is not None, show(core, maxdepth=3)[:100], fi)
-    # F = reciprocal(...) - eye
-    F = fr.env.vars.get("Fmat")
+    # F = reciprocal(...) - eye : the matrix handed to the tangent helper (second positional argument)
+    helper_calls = [x for x in subterms(R) if x.op == "call" and (func_name(x) or "").endswith("_eigh_jvp_jitted_nob")]
+    F = call_parts(helper_calls[0])[1][1] if helper_calls and len(call_parts(helper_calls[0])[1]) >= 2 else None
     okF = False
     if F is not None:
         m = m_binop(strip_wrappers(F), "-")
         okF = m is not None and strip_wrappers(m[0]) is recs[0] and m_arrcall(strip_wrappers(m[1]), "eye") is not None
     ctx.ob("GUARD-1", "linalg_utils._eigh_jvp: the diagonal correction is applied after the reciprocal", okF,
-           "Fmat = reciprocal(guarded gaps) - eye", fi)
-    # primal output and tangent structure
-    po = fr.env.vars.get("primal_out")
-    ok_p = po is not None and strip_wrappers(po).op == "call" and (func_name(strip_wrappers(po)) or "").endswith("_eigh")
+           "F = reciprocal(guarded gaps) - eye", fi)
+    # primal output and tangent structure: returns (_eigh(primals), (dw, dv))
+    Rs = strip_wrappers(R)
+    po = strip_wrappers(Rs.args[0]) if Rs.op == "tuple" and len(Rs.args) == 2 else None
+    ok_p = po is not None and po.op == "call" and (func_name(po) or "").endswith("_eigh")
     ctx.ob("GUARD-1", "linalg_utils._eigh_jvp: primal output is _eigh(primals)", ok_p, "", fi)
     h = p.func("linalg_utils._eigh_jvp_jitted_nob")
     ev2 = Evaluator(p)
     fr2 = ev2.eval_function(h)
     r2 = ev2.result(fr2)
+    hp = [sym(x.name) for x in h.params]
+
+    def dot_parts(t):
+        t = strip_wrappers(t)
+        a_ = m_arrcall(t, "dot", "matmul") if t.op == "call" else None
+        if a_ is not None and len(a_) == 2:
+            return strip_wrappers(a_[0]), strip_wrappers(a_[1])
+        if t.op == "call" and t.args[0].op == "attr" and t.args[0].args[1] == "dot" and len(call_parts(t)[1]) == 1:
+            return strip_wrappers(t.args[0].args[0]), strip_wrappers(call_parts(t)[1][0])
+        mm = m_binop(t, "@")
+        return (strip_wrappers(mm[0]), strip_wrappers(mm[1])) if mm is not None else None
+
     ok_t = False
-    if r2.op == "tuple" and len(r2.args) == 2:
+    if r2.op == "tuple" and len(r2.args) == 2 and len(hp) == 3:
         dw, dv = strip_wrappers(r2.args[0]), strip_wrappers(r2.args[1])
-        m_ = fr2.env.vars.get("vt_at_v")
         a = m_arrcall(dw, "diag", "diagonal")
-        dd = m_arrcall(dv, "dot")
-        if m_ is not None and a is not None and strip_wrappers(a[0]) is strip_wrappers(m_) and dd is not None:
-            mul = m_arrcall(strip_wrappers(dd[1]), "multiply")
-            ok_t = dd[0] is sym("v") and mul is not None and {strip_wrappers(mul[0]).uid, strip_wrappers(mul[1]).uid} == {
-                sym("Fmat").uid, strip_wrappers(m_).uid}
+        M = strip_wrappers(a[0]) if a is not None else None
+        dd = dot_parts(dv)
+        if M is not None and dd is not None:
+            mul = m_arrcall(dd[1], "multiply") if dd[1].op == "call" else None
+            if mul is None and m_binop(dd[1], "*") is not None:
+                mul = list(m_binop(dd[1], "*"))
+            ok_t = dd[0] is hp[0] and mul is not None and {strip_wrappers(mul[0]).uid, strip_wrappers(mul[1]).uid} == {
+                hp[1].uid, M.uid}
     ctx.ob("PAIR-4", "linalg_utils._eigh_jvp_jitted_nob: dw = diag(M), dv = v (F * M) with one M = v^H dA v", ok_t,
            "", h)
 
@@ -240,6 +256,16 @@ def whitelist(ctx, s: Sib):
                f"{len(sets)} occupation assignment(s) via argsort(mo_energy)[:nocc]", e.fi)
 
 
+def chol_tensors(t):
+    """ham_data['chol'].reshape(...) terms inside t (the rank-3 view of the Cholesky vectors, however it is named)"""
+    out = []
+    for x in subterms(t):
+        mm = m_method(x, "reshape") if x.op == "call" else None
+        if mm is not None and strip_wrappers(mm[0]) is key(HD, "chol") and x not in out:
+            out.append(x)
+    return out
+
+
 def symmetry(ctx, s: Sib):
     """uhf.optimize: one SCF iteration treats the two spins as mirror images."""
     e = s.E("uhf", "optimize")
@@ -251,14 +277,12 @@ def symmetry(ctx, s: Sib):
     body = s.ev.open_closure(match_scan(scans[0])[0], [Cu, x])
     if body.op != "tuple":
         raise AnalysisError("uhf.optimize: unmodelled scan body")
-    h1v = e.var("h1")
-    pairs = [(getitem(Cu, const(0)), getitem(Cu, const(1))), (nelec(0), nelec(1))]
-    if h1v is not None:
-        pairs.append((getitem(h1v, const(0)), getitem(h1v, const(1))))
+    pairs = [(getitem(Cu, const(0)), getitem(Cu, const(1))), (nelec(0), nelec(1)),
+             (key(HD, "h1", 0), key(HD, "h1", 1))]
     sw = swap_map(pairs)
     base = {}
-    if e.var("h2") is not None:
-        base[e.var("h2")] = sym("§L")  # the reshaped Cholesky tensor (its shape arguments are bookkeeping)
+    for t_ in chol_tensors(body):
+        base[t_] = sym("§L")  # the reshaped Cholesky tensor (its shape arguments are bookkeeping)
     sw.update(base)
     for label, val in (("new density", body.args[0]), ("eigenvectors", body.args[1])):
         v = strip_wrappers(val)
@@ -294,10 +318,13 @@ def fock_sibling(ctx, s: Sib):
     hyp_u = {getitem(Cu, const(0)): half, getitem(Cu, const(1)): half, key(HD, "h1", 1): key(HD, "h1", 0)}
     hyp_r = {key(HD, "h1", 1): key(HD, "h1", 0)}
     # the reshaped Cholesky tensor is the same array in both (shape bookkeeping differs textually)
-    if r.var("h2") is None or u.var("h2") is None:
-        raise AnalysisError("optimize: Cholesky tensor variable vanished")
-    hyp_r[r.var("h2")] = sym("§L")
-    hyp_u[u.var("h2")] = sym("§L")
+    cr, cu = chol_tensors(rb), chol_tensors(ub)
+    if not cr or not cu:
+        raise AnalysisError("optimize: the reshaped Cholesky tensor ham_data['chol'].reshape(...) is not used in the Fock build")
+    for t_ in cr:
+        hyp_r[t_] = sym("§L")
+    for t_ in cu:
+        hyp_u[t_] = sym("§L")
     for i, fu in enumerate(fu_):
         s.cmp("SIB-2", f"rhf.optimize / uhf.optimize: Fock matrix #{i} of uhf equals the rhf one for a closed-shell density",
               fr_[0], fu, u.fi, hyp_r, hyp_b=hyp_u, what="dm_up = dm_dn = dm/2, h1[0] == h1[1]")
